@@ -341,6 +341,11 @@ func checkC07(r *Run) []Violation {
 	var acceptedUnits []int // units accepted so far, in order
 	expAll, _ := h.Model(r.sc.Start)
 	for i, att := range r.Results {
+		if att.Master != nil && len(att.Master.Dumps) == 0 && att.HadConn && !att.Plan.Stop.connPhase() && len(att.Causes) == 0 && !att.Hang && att.Returned {
+			// the connection was established, nothing the simulator did ended the
+			// attempt, and still no dump request reached the master
+			vs = append(vs, Violation{"C07", "dump-count", fmt.Sprintf("the attempt connected and authenticated but never sent a binlog-dump request (position %v); Stream returned %s", expectedRequest(r, i), errText(att.StreamErr)), i})
+		}
 		if att.Master != nil && len(att.Master.Dumps) > 0 {
 			m := att.Master
 			d := m.Dumps[0]
@@ -549,4 +554,15 @@ func checkC08(r *Run) []Violation {
 		}
 	}
 	return vs
+}
+
+// expectedRequest describes (for messages only) what the attempt should have asked for.
+func expectedRequest(r *Run, i int) string {
+	if i == 0 {
+		return r.sc.Start.String()
+	}
+	if r.haveAccepted {
+		return "the stored resume position"
+	}
+	return r.sc.Start.String()
 }
